@@ -150,6 +150,38 @@ fn run_op(tx: &mut Transaction, op: &Value) -> Value {
                 Err(e) => json!({ "err": e.to_string() }),
             }
         }
+        "interp" => {
+            // run a script step by step; the first `setup_steps` steps only rebuild the initial stacks
+            let script = Script::from_bytes(&hx(&op["script"])).expect("script must parse");
+            let mut it = Interpreter::from_script(&script);
+            let mut last: Option<State> = None;
+            let mut failed: Option<String> = None;
+            while let Some(r) = it.next() {
+                match r {
+                    Ok(s) => last = Some(s),
+                    Err(e) => {
+                        failed = Some(e.to_string());
+                        break;
+                    }
+                }
+            }
+            let st = it.state();
+            let dump = |s: &State| json!({"stack": s.stack.iter().map(hex::encode).collect::<Vec<_>>(), "alt": s.alt_stack.iter().map(hex::encode).collect::<Vec<_>>()});
+            match failed {
+                Some(e) => json!({"err": e, "state_after_error": dump(&st), "last_ok": last.as_ref().map(|s| dump(s))}),
+                None => json!({ "ok": dump(&st) }),
+            }
+        }
+        "template_match" => {
+            let script = Script::from_bytes(&hx(&op["script"])).expect("script must parse");
+            match ScriptTemplate::from_asm_string(op["template"].as_str().unwrap()) {
+                Ok(t) => match script.matches(&t) {
+                    Ok(v) => json!({"ok": v.iter().map(|(k, d)| json!([k.to_string(), hex::encode(d)])).collect::<Vec<_>>()}),
+                    Err(e) => json!({ "err": e.to_string() }),
+                },
+                Err(e) => json!({ "toolerror": e.to_string() }),
+            }
+        }
         "der_roundtrip" => match Signature::from_der(&hx(&op["bytes"])) {
             Ok(sig) => json!({ "ok": hex::encode(sig.to_der_bytes()) }),
             Err(e) => json!({ "err": e.to_string() }),
